@@ -216,7 +216,7 @@ fn gen_queries(r: &mut Rng, t: &[u8], n: usize, lineindex_only: bool) -> Vec<Str
     };
     for _ in 0..n {
         let mode = r.below(100);
-        let mut off: Option<usize> = None;
+        let off: Option<usize>;
         match mode {
             0..=19 => {
                 // short forward step (same or next few bytes)
